@@ -147,7 +147,7 @@ NearOrZero(obs, f, tol) ==
 
 (* ===================== 3. breadth: the breadth-first search tree ================== *)
 (* hop distances from s in the 0/1 graph A (INF = unreachable), any n                  *)
-HopRowOf(n, A, s) == HopRowFast(n, OutNb(n, LenOfAdj(n, Bin(n, A))), s)
+HopRowOf(n, A, s) == HopRowFast(n, DOutNb(n, LenOfAdj(n, Bin(n, A))), s)
 (* shortest cycle through s (INF if none): one connection s -> k plus the way back     *)
 CycThrough(n, A, s) ==
   LET back == TLCEval([k \in 1..n |-> IF A[s][k] # 0 THEN HopRowOf(n, A, k)[s] ELSE INF])
